@@ -516,6 +516,36 @@ def run(ctx, spec):
             viol("fs-trace", f"schedule:pack_to_parquet:{clause}", {"op": "pack_partitions_to_parquet",
                                                                    "config": cfg, **detail})
         shutil.rmtree(root, ignore_errors=True)
+    # ---- (d) reading several datasets at once through a delay-injecting filesystem ------------------------
+    from spatialpandas.io import read_parquet_dask
+    mroot = os.path.join(ctx.scratch, "c18-multi")
+    os.makedirs(mroot)
+    with dask.config.set(scheduler="synchronous"):
+        L = F["lines"]
+        for nm, fr, k_ in (("a.parq", L.iloc[:100], 3), ("b.parq", L.iloc[100:180].assign(rid=L["rid"].iloc[100:180] + (1 << 30)), 4),
+                           ("c.parq", L.iloc[180:][::-1], 2)):
+            dd.from_pandas(fr, npartitions=k_, sort=False).to_parquet(os.path.join(mroot, nm))
+        paths3 = [os.path.join(mroot, n_) for n_ in ("a.parq", "b.parq", "c.parq")]
+
+        def multi_canon(fs_):
+            r_ = read_parquet_dask(paths3, filesystem=fs_) if fs_ is not None else read_parquet_dask(paths3)
+            pb = {c: t.values.tolist() for c, t in (getattr(r_, "_partition_bounds", None) or {}).items()}
+            return canon((stable_hash(_nan(pb)), r_.cx[20.0:70.5, 15.0:80.5].compute().sort_values("rid"),
+                          np.asarray(r_.geometry.total_bounds, dtype=float)))
+        mref = guarded("read_parquet_dask:multi", "reference", lambda: multi_canon(None))
+    if mref is not None:
+        for i in range(max(4, p["packs"] // 2)):
+            fs = fsmon.MonFS(delay_seed=ctx.seed * 31 + i, delay_p=0.6, delay_max=0.02)
+            with dask.config.set(scheduler="threads", num_workers=[2, 8][i % 2]):
+                r = guarded("read_parquet_dask:multi", f"delays-seed{i}", lambda: multi_canon(fs))
+            if r is None:
+                continue
+            ctx.count("perturbed_runs")
+            ctx.case(["read_parquet_dask-multi", i], nontrivial=True)
+            ctx.sig("read_parquet_dask-multi", "delays")
+            if r != mref:
+                viol("schedule-dependence", "schedule:read_parquet_dask:several-datasets:result-depends-on-io-timing",
+                     {"op": "read_parquet_dask([a, b, c])", "config": f"delays-seed{i}"})
     ctx.extra["distinct_fs_thread_orders"] = len(orders)
     ctx.extra["fs_events"] = events_total
     ctx.sample({"numba_threads": nt, "dask_configs": [f"{s}:{w_}" for s, w_ in cfgs],
